@@ -25,7 +25,10 @@ Permissive on purpose:
   condition; anything else has no expected value (C14.. own those semantics);
 * blanks are never written between two operands (that is the intersection operator), after a
   prefix minus or before %;
-* a top-level blank result is 0 (what a cell shows).
+* a top-level blank result is 0 (what a cell shows);
+* arithmetic on text spelled TRUE/FALSE/inf/nan (e.g. 2-(TRUE&"")) has no expected value here:
+  whether such text is a number is C10's question; a text literal spelled like an error code
+  ("#N/A") is not judged: pycel's value model has one representation for both.
 Trees are dropped (counted) before pycel sees them when a power leaves the magnitude bounds
 (|base| <= 1e6, |exponent| <= 64) or when *some* bracketing of one of their parenthesis-free
 operator runs could build a power tower (a broken parser must not be able to hang the check).
@@ -43,11 +46,11 @@ from vp.refmodel import operators as ref
 PROP = 'C02'
 LEVEL = 'exploration'
 RULE = ('trees first, text second. Quick, exhaustive: all trees of depth <= 1 over 14 operators x 14 leaves; '
-        'all depth-2 trees with one operator child (either side) x 14 inner operators x a 6-leaf pool '
-        '(2, 3, 0.5, "4", TRUE, A1); all depth-2 trees with two operator children x position-specific '
+        'all depth-2 trees with one operator child (either side): 14 inner operators over a 6-leaf pool '
+        '(2, 3, 0.5, "4", TRUE, A1), the free operand from (2, 3, "4", A1); all depth-2 trees with two operator children x position-specific '
         '2-leaf pools; function-call trees (SUM/IF/ABS over leaf and depth-1 arguments, calls as operands). '
         'Thorough adds all depth-3 chains (one operator child per node, either side) over a 3-leaf pool and '
-        'sampled trees of depth 4-6. Each tree in 3 renderings (minimal / fully parenthesised / varied: '
+        'sampled trees of depth 4-6. Each tree in 2-3 renderings (minimal / fully parenthesised / every second tree varied: '
         'leaf parentheses, blanks, line feeds, function-name case), 3 rotating environments of cell values, '
         '1/50 also through a real workbook. Literals: all texts of length <= 2 (quick) / 3 (thorough) over a '
         '20-character alphabet x 3 contexts, stored number spellings, logicals, error literals. '
@@ -249,15 +252,16 @@ def _plain_number(v):
 def tree_value(node, env):
     """value of the tree by the statement's semantics, ref.UNSPEC where it has none"""
     k = node[0]
-    if k == 'neg':
-        return ref.evaluate('neg', tree_value(node[1], env))
-    if k == 'pct':
-        return ref.evaluate('pct', tree_value(node[1], env))
+    if k in ('neg', 'pct'):
+        a = tree_value(node[1], env)
+        return ref.UNSPEC if _operator_territory(a) else ref.evaluate(k, a)
     if k == 'bin':
         a, b = tree_value(node[2], env), tree_value(node[3], env)
         if node[1] == '^' and a is not ref.UNSPEC and b is not ref.UNSPEC \
                 and not ref.in_bounds('^', a, b):
             raise Dropped('power-out-of-bounds')
+        if node[1] in ref.ARITH and (_operator_territory(a) or _operator_territory(b)):
+            return ref.UNSPEC
         return ref.evaluate(node[1], a, b)
     if k == 'fn':
         args = [tree_value(a, env) for a in node[2]]
@@ -279,6 +283,13 @@ def tree_value(node, env):
             return ref.UNSPEC
         raise ValueError(name)
     return leaf_value(node, env)
+
+
+def _operator_territory(v):
+    """text spelled like a logical or like inf/nan used as an arithmetic operand: whether that is
+    a number is a question about the operators (C10), not about the translation"""
+    return isinstance(v, str) and v.strip().upper().lstrip('+-') in (
+        'TRUE', 'FALSE', 'INF', 'INFINITY', 'NAN')
 
 
 def same_value(obs, want):
@@ -589,6 +600,7 @@ LEAVES14 = [num('2'), num('3'), num('0.5'), num('0'), txt('4'), txt('ab'), txt('
             err('#N/A'), cell('A1'), cell('B1'), cell('C1'), cell('G1')]
 LEAVES6 = [num('2'), num('3'), num('0.5'), txt('4'), TRUE, cell('A1')]
 POS_POOLS = [[num('2'), txt('4')], [num('3'), num('0.5')], [num('2'), TRUE], [num('3'), cell('A1')]]
+LEAVES4 = [num('2'), num('3'), txt('4'), cell('A1')]
 LEAVES3 = [num('2'), num('3'), cell('B1')]
 
 
@@ -615,7 +627,7 @@ def quick_trees():
         yield 'depth2-one-inner', neg(inner)
         yield 'depth2-one-inner', pct(inner)
         for op in BIN:
-            for leaf in LEAVES6:
+            for leaf in LEAVES4:
                 yield 'depth2-one-inner', binop(op, inner, leaf)
                 yield 'depth2-one-inner', binop(op, leaf, inner)
     # depth 2, two operator children, position-specific leaf pools
@@ -713,7 +725,10 @@ MIN_SAMPLED = {'quick': 400, 'thorough': 20000}
 
 
 def styles_for(i):
-    return ('min', 'full', VARIED[i % len(VARIED)])
+    """minimal and fully parenthesised always; a varied rendering for every second tree"""
+    if i % 2:
+        return ('min', 'full')
+    return ('min', 'full', VARIED[(i // 2) % len(VARIED)])
 
 
 # --------------------------------------------------------------------------- literals
@@ -724,7 +739,7 @@ NUMBER_SPELLINGS = ['0', '1', '7', '12', '100', '255', '65536', '1000000', '0.5'
                     '3.14159', '123.456', '0.001', '1.5E-3', '1.5E-03', '1E+20', '2.5E+15', '1E-20',
                     '9.99E+5', '1E+2', '6.02E+23']
 DIRECTED_TEXT = ['#EMPTY!', '\\n', 'a\\nb', '\\', 'a\\', '\\"', 'C:\\dir\\file', 'line1\nline2',
-                 'tab\there', '{1,2;3,4}', "it's", '50%', '#N/A', 'TRUE', '=1+1', '""', 'a""b',
+                 'tab\there', '{1,2;3,4}', "it's", '50%', 'TRUE', '=1+1', '""', 'a""b',
                  '\\x41', '\\u0041', '\\N{BULLET}', '\\101', "\\'", 'x\r\ny', ' lead', 'trail ',
                  '日本語', 'é€😀', '%s %d {0}', '$A$1', 'A1:B2']
 
@@ -735,29 +750,30 @@ def literal_contexts(s):
             ('if-arg', call('IF', TRUE, lit, txt('')), s)]
 
 
-def judge_text_literal(ctx, s, contexts=None):
+def judge_text_literal(ctx, s):
     cr = ctx_route()
+    failed = None
     for name, tree, want in literal_contexts(s):
-        if contexts is not None and name not in contexts:
-            continue
         text = formula(tree, 'min')
         got = cr.run(text, {})
         ctx.count('text-literal')
         ctx.count('text-literal:' + name)
         ctx.case(None)
-        if fails(got, want):
-            cls = text_classes(s)
-            if not cls:
-                # which single characters already fail on their own?
-                bad = sorted({char_class(c) for c in set(s) if fails(cr.run(formula(txt(c), 'min'), {}), c)})
-                cls = bad or ['other']
-            for c in cls:
-                ctx.violation(f'text-literal/{c}', f'{text!r} -> {show(got[1])}'
-                              f'{"" if got[0] == "v" else " (" + ("does not compile" if got[0] == "c" else "raises") + ")"}'
-                              f'; the literal denotes {want!r}; python_code={got[2]!r}',
-                              {'kind': 'text', 'text': s})
-            return False
-    return True
+        if failed is None and fails(got, want):
+            failed = (text, got, want)
+    if failed is None:
+        return True
+    text, got, want = failed
+    cls = text_classes(s)
+    if not cls:
+        # which single characters already fail on their own?
+        cls = sorted({char_class(c) for c in set(s)
+                      if fails(cr.run(formula(txt(c), 'min'), {}), c)}) or ['other']
+    how = '' if got[0] == 'v' else ' (does not compile)' if got[0] == 'c' else ' (raises)'
+    for c in cls:
+        ctx.violation(f'text-literal/{c}', f'{text!r} -> {show(got[1])}{how}; the literal denotes '
+                      f'{want!r}; python_code={got[2]!r}', {'kind': 'text', 'text': s})
+    return False
 
 
 def char_class(c):
@@ -836,9 +852,8 @@ def run(ctx):
             i += 1
             if not ctx.mine(i):
                 continue
-            env = ENVS[(i // ctx.nshards) % len(ENVS)]
-            judge_tree(ctx, tree, env, styles_for(i // ctx.nshards), workbook=(i // ctx.nshards) % 50 == 0,
-                       part=part)
+            env = ENVS[i % len(ENVS)]
+            judge_tree(ctx, tree, env, styles_for(i // 16), workbook=(i // 16) % 50 == 0, part=part)
     # sampled deeper trees (a fixed minimum, then until the budget ends)
     rng = ctx.rng
     n = 0
